@@ -133,6 +133,7 @@ def array_engine(ctx, m, cname, f, writer_calls):
             return None
 
         # ---- R-16.1
+        snapshot = {}
         for role in ("pos", "ids", "box"):
             a = arg(role)
             if a is None:
@@ -147,10 +148,25 @@ def array_engine(ctx, m, cname, f, writer_calls):
                 bad = f"the {role} argument is a computed expression ({short(a, 40)}), not the value read from the dumped frame"
             else:
                 rds = fl.rd(p, wn)
-                read_defs = [d for d, sfx in rds if d.kind == "unpack" and isinstance(d.value, ast.Call) and last_name(d.value) in READERS]
+                def _rcall(d):
+                    v_ = d.value
+                    if isinstance(v_, ast.Name):  # frame = reader(...); a, b, c, d = frame
+                        v_, _ = deref(fl, v_, d.at)
+                    return v_ if isinstance(v_, ast.Call) and last_name(v_) in READERS else None
+                read_defs = [d for d, sfx in rds if d.kind == "unpack" and _rcall(d) is not None]
                 other = [d for d, sfx in rds if d not in read_defs]
                 if not read_defs:
                     bad = f"the {role} written does not come from the reader of the dumped frame"
+                snapshot[role] = [_rcall(d) for d in read_defs]
+                # a reader that post-processes coordinates is not a reader of the frame *as stored*
+                for d in read_defs:
+                    rc_ = _rcall(d)
+                    if role == "pos" and isinstance(rc_.func, ast.Attribute) and path_of(rc_.func.value) == "self":
+                        cls_ = getattr(f, "_parent", None)
+                        meth = next((s_ for s_ in getattr(cls_, "body", []) if isinstance(s_, FUNC) and s_.name == rc_.func.attr), None)
+                        shifts = [c_ for c_ in walk_local(meth) if isinstance(c_, ast.Call) and last_name(c_) in INPLACE and last_name(c_) != "reset_momentum"] if meth is not None else []
+                        if shifts:
+                            bad = f"the positions written come from `{short(rc_, 40)}`, which post-processes the coordinates it reads (`{short(shifts[0], 40)}`): the regenerated frame is written with translated positions"
                 for d in other:
                     ok_none = False
                     if role == "box":
@@ -174,6 +190,12 @@ def array_engine(ctx, m, cname, f, writer_calls):
                         construct=f"{last_name(W)}(..., {role}={short(a, 40) if a is not None else '-'})")
             else:
                 ctx.ok("R-16.1", W, f"{cname}: {role} written is exactly what the reader of the dumped frame returned")
+        # one snapshot: positions and box (and identities) are results of the same read of the dumped frame
+        if snapshot.get("pos") and snapshot.get("box") and not (set(map(id, snapshot["pos"])) & set(map(id, snapshot["box"]))):
+            ctx.bad("R-16.1", W, f"{cname}.modify_velocities writes positions read by `{short(snapshot['pos'][0], 40)}` together with a box read by `{short(snapshot['box'][0], 40)}`: two readers of the dumped frame need not return the same representation (origin shift, box form), so the regenerated frame no longer has the positions of the shooting point relative to its box",
+                    construct=f"{last_name(W)}: positions and box from different reads")
+        elif snapshot.get("pos") and snapshot.get("box"):
+            ctx.ok("R-16.1", W, f"{cname}: positions and box written are results of one read of the dumped frame")
         # velocity must be the regenerated one
         v = arg("vel")
         vp = path_of(v) if v is not None else None
@@ -787,6 +809,8 @@ def run(ctx):
 
 
 VARIANTS = [
+    B("c16-lammps-positions-through-the-shifting-reader", LAMMPS, "        id_type, xyz, vel, box = read_lammpstrj(pos, 0, self.n_atoms)\n        kin_old", "        id_type, _, _, box = read_lammpstrj(pos, 0, self.n_atoms)\n        xyz, vel, _, _ = self._read_configuration(pos)\n        kin_old", "R-16.1", control=True, why="seeded C16_n"),
+    K("c16-keep-lammps-frame-read-into-a-tuple", LAMMPS, "        id_type, xyz, vel, box = read_lammpstrj(pos, 0, self.n_atoms)\n        kin_old", "        frame = read_lammpstrj(pos, 0, self.n_atoms)\n        id_type, xyz, vel, box = frame\n        kin_old"),
     B("c16-cp2k-extract-appends", CP2K, "                write_xyz_trajectory(\n                    out_file, xyz, vel, names, box, append=False\n                )", "                write_xyz_trajectory(out_file, xyz, vel, names, box, False)", "R-16.14", control=True, why="seeded C16_m (= C19_i)"),
     B("c16-lammps-pops-zero-momentum", LAMMPS, 'vel_settings.get("zero_momentum", False)', 'vel_settings.pop("zero_momentum", False)', "R-16.13", control=True, why="seeded C16_l"),
     B("c16-genvel-input-cached-in-input-dir", GROMACS, '        gen_mdp = os.path.join(self.exe_dir, "genvel.mdp")', '        gen_mdp = os.path.join(self.input_path, "genvel.mdp")', "R-16.12", control=True, why="seeded C16_k"),
